@@ -55,19 +55,22 @@ Lemma C17_v0_accepted_value_panics_comparator :
                 /\ rib_cmp (local_path_attrs [a]) 2 competitor 1 = Panic t.
 Proof. exists (AUnknown 0 5 [1]), (mkAttr 5 64 (DBin [1])), P_VALUE_UNWRAP. split; reflexivity. Qed.
 
-(* an AS_PATH segment of type 5 is accepted and as_path_length hits unreachable!() *)
-Lemma C17_v0_accepted_as_path_panics_length :
-  exists x a, from_api_v0 v6none x = Ok (Some a) /\ as_path_length a = Panic P_UNREACHABLE.
-Proof. exists (AAsPath [(5%Z, [1])]), (mkAttr 2 64 (DBin [5; 1; 0; 0; 0; 1])). split; reflexivity. Qed.
-
-(* 256 numbers in one segment: the count byte wraps to 0 and the numbers are
-   re-read as segment headers *)
-Lemma C17_v0_overlong_segment_panics_length :
-  exists x a, from_api_v0 v6none x = Ok (Some a) /\ as_path_length a = Panic P_UNREACHABLE.
+(* an AS_PATH segment of type 5 was accepted (as_path_length then hit unreachable!();
+   since the repair of the AS_PATH helpers it skips it), and 256 numbers in one
+   segment wrapped the count byte to 0 so that the numbers are read as segment
+   headers: both values are outside the wire invariants *)
+Lemma C17_v0_accepted_as_path_type5 :
+  exists x a, from_api_v0 v6none x = Ok (Some a) /\ ~ wf_attr a.
 Proof.
-  exists (AAsPath [(2%Z, repeat 83886080 256)]).
-  eexists. split; [vm_compute; reflexivity|]. vm_compute. reflexivity.
+  exists (AAsPath [(5%Z, [1])]), (mkAttr 2 64 (DBin [5; 1; 0; 0; 0; 1])). split; [reflexivity|].
+  intros [_ [_ [_ Hd]]]. cbn in Hd. destruct Hd as [_ [_ Hw]].
+  inversion Hw as [|t n body rest Ht Hn Hl Hr Heq]. lia.
 Qed.
+
+Lemma C17_v0_overlong_segment_wraps :
+  exists a, from_api_v0 v6none (AAsPath [(2%Z, repeat 83886080 256)]) = Ok (Some a)
+            /\ firstn 4 (match a_data a with DBin b => b | _ => [] end) = [2; 0; 5; 0].
+Proof. eexists. split; [vm_compute; reflexivity|]. vm_compute. reflexivity. Qed.
 
 (* ORIGIN 3 accepted; an unparsable next hop yields an empty NEXT_HOP whose
    listing panics *)
@@ -183,7 +186,7 @@ Example roundtrip_example :
   wf_attr a /\ core_code (a_code a) = true /\ ~ Known_C17_flags a
   /\ roundtrip toy_p toy_r a = Ok (Some a).
 Proof.
-  cbn zeta. repeat split; try (cbn; lia).
+  cbn zeta. repeat split; try (cbn; lia); try discriminate.
   - repeat constructor; lia.
   - intros [f [E Hne]]. cbn in E. injection E as <-. apply Hne. reflexivity.
 Qed.
@@ -342,4 +345,63 @@ Proof.
   split; [apply v6_nlri_assumptions_satisfiable|].
   split; [cbn; unfold u32_ok; lia|]. split; [repeat constructor; cbn; unfold u32_ok; lia|].
   vm_compute. reflexivity.
+Qed.
+
+(* ------------------------------------------------------------------ *)
+(* EVPN routes                                                           *)
+From RB Require Import Proofs.ApiEvpn.
+
+Theorem C17_evpn_roundtrip :
+  forall v6p v6r e, v6_contract v6p v6r -> v6_nonempty v6p -> wf_evpn e ->
+    evpn_from_api v6r (evpn_to_api v6p e) = Some e.
+Proof. exact evpn_roundtrip. Qed.
+
+Theorem C17_evpn_from_api_preserves_wf :
+  forall v6r x e, v6_range v6r -> api_evpn_in_range x -> evpn_from_api v6r x = Some e -> wf_evpn e.
+Proof. intros v6r x e. exact (evpn_from_api_wf (fun _ => []) v6r x e). Qed.
+
+Example v6_nonempty_satisfiable : v6_nonempty toy_p.
+Proof. intros a _. discriminate. Qed.
+
+Example evpn_example :
+  let e := EvPfx (RD2 65000 1) [0; 0; 0; 0; 0; 0; 0; 0; 0; 0] 7 (IP6 1) 128 (IP6 0) 5000 in
+  wf_evpn e /\ evpn_from_api toy_r (evpn_to_api toy_p e) = Some e
+  /\ api_evpn_in_range (evpn_to_api toy_p e)
+  /\ evpn_from_api v6_parse (AEvAd (ARd2 65000 1) (Some (0, [0; 0; 0; 0; 0; 0; 0; 0; 0])) 0 16777216) = None
+  /\ evpn_from_api v6_parse (AEvPfx (ARd2 65000 1) (Some (0, [0; 0; 0; 0; 0; 0; 0; 0; 0])) 0
+                               [49; 48; 46; 48; 46; 48; 46; 49] 33 [] 5) = None.
+Proof.
+  cbn zeta. split; [|split; [vm_compute; reflexivity|split; [|split; vm_compute; reflexivity]]].
+  - cbn. unfold u32_ok, wf_label24. repeat split; try lia; try reflexivity. repeat constructor; lia.
+  - cbn. unfold u32_ok. repeat split; try lia. repeat constructor; lia.
+Qed.
+
+(* ------------------------------------------------------------------ *)
+(* TUNNEL_ENCAP / PREFIX_SID / BGP-LS attribute: the lossless-or-raw wrapper   *)
+From RB Require Import Proofs.ApiGuard.
+
+Theorem C17_noncore_roundtrip_guarded :
+  forall (typed_of_bytes bytes_of_typed : N -> list N -> res (option (list N))) a x,
+    wf_attr a -> core_code (a_code a) = false ->
+    to_api_nc typed_of_bytes bytes_of_typed a = Ok x ->
+    from_api_nc bytes_of_typed x = Ok (Some (canon_of a)).
+Proof. exact guarded_roundtrip. Qed.
+
+Theorem C17_noncore_typed_from_api_wf :
+  forall (bytes_of_typed : N -> list N -> res (option (list N))) c t a,
+    c = TUNNEL_ENCAP \/ c = LS \/ c = PREFIX_SID ->
+    (forall b, bytes_of_typed c t = Ok (Some b) -> bytes_ok b) ->
+    from_api_nc bytes_of_typed (NcTyped c t) = Ok (Some a) -> wf_attr a.
+Proof. exact from_api_nc_typed_wf. Qed.
+
+(* non-vacuity: a lossless converter keeps the typed form, a lossy one falls back to raw *)
+Example guarded_examples :
+  let a := mkAttr PREFIX_SID 192 (DBin [1; 0; 7; 0; 0; 0; 0; 0; 0; 5]) in
+  wf_attr a /\ core_code (a_code a) = false
+  /\ to_api_nc (fun _ b => Ok (Some b)) (fun _ t => Ok (Some t)) a = Ok (NcTyped PREFIX_SID [1; 0; 7; 0; 0; 0; 0; 0; 0; 5])
+  /\ to_api_nc (fun _ b => Ok (Some (firstn 3 b))) (fun _ t => Ok (Some t)) a
+     = Ok (NcUnknown 192 PREFIX_SID [1; 0; 7; 0; 0; 0; 0; 0; 0; 5]).
+Proof.
+  cbn zeta. split; [|split; [reflexivity|split; vm_compute; reflexivity]].
+  repeat split; cbn; try lia. repeat constructor; lia.
 Qed.
